@@ -270,7 +270,7 @@ PROPS["C08"] = {
     "level": "translation_validation",
     "prepare": g_prepare,
     "jobs": [],
-    "designs": ["w1", "w2"],
+    "designs": ["w1", "w2", "w3"],
     "harness_tag": "c08",
     "assert_exclude": r"^openapi:",
     "quick": r"^VerifC08_", "thorough": r"^VerifC08T?_",
@@ -307,7 +307,7 @@ PROPS["C20"] = {
     },
 }
 
-ALL_DESIGNS = ["v1", "v2", "v3", "v4", "v5", "v6", "v7", "d1", "a1", "a2", "a3", "a4", "a5", "e1", "e2", "e3", "s1", "s2", "w1", "w2", "p1", "c1", "c2", "c3", "c4", "c5", "c6", "c7", "c8", "a6"]
+ALL_DESIGNS = ["v1", "v2", "v3", "v4", "v5", "v6", "v7", "d1", "a1", "a2", "a3", "a4", "a5", "e1", "e2", "e3", "s1", "s2", "w1", "w2", "w3", "p1", "c1", "c2", "c3", "c4", "c5", "c6", "c7", "c8", "a6"]
 
 PROPS["C01"] = {
     "level": "other",
@@ -358,12 +358,12 @@ PROPS["C14"] = {
     "level": "translation_validation",
     "prepare": g_prepare,
     "jobs": [],
-    "designs": ["v1", "v2", "v3", "v4", "v6", "v7", "w1", "w2", "e1", "e2", "e3", "a5"],
+    "designs": ["v1", "v2", "v3", "v4", "v6", "v7", "w1", "w2", "w3", "e1", "e2", "e3", "a5"],
     "harness_tag": "c04",
-    "harness_tags": {"w1": "c08", "w2": "c08", "e1": "c05", "e2": "c05", "e3": "c05", "a5": "c03"},
+    "harness_tags": {"w1": "c08", "w2": "c08", "w3": "c08", "e1": "c05", "e2": "c05", "e3": "c05", "a5": "c03"},
     "assert_include": r"^openapi:|^no-panic$",
-    "quick": r"^VerifC04_v[123467]_(ints|nums|strs|colls|first|second|merge|restate|aliases|redeclared)$|^VerifC08_w1_(get|list_fixed)$|^VerifC08_w2|^VerifC05_e[123]_|^VerifC03_a5_(coll_result|tagged_body)$",
-    "thorough": r"^VerifC04_v[123467]_(ints|nums|strs|colls|first|second|merge|restate|aliases|redeclared)$|^VerifC08_w1_(get|list_fixed)$|^VerifC08_w2|^VerifC05_e[123]_|^VerifC03_a5_(coll_result|tagged_body)$",
+    "quick": r"^VerifC04_v[123467]_(ints|nums|strs|colls|first|second|merge|restate|aliases|redeclared)$|^VerifC08_w1_(get|list_fixed)$|^VerifC08_w2|^VerifC08_w3_dyn$|^VerifC05_e[123]_|^VerifC03_a5_(coll_result|tagged_body)$",
+    "thorough": r"^VerifC04_v[123467]_(ints|nums|strs|colls|first|second|merge|restate|aliases|redeclared)$|^VerifC08_w1_(get|list_fixed)$|^VerifC08_w2|^VerifC08_w3_dyn$|^VerifC05_e[123]_|^VerifC03_a5_(coll_result|tagged_body)$",
     "bounds": {"designs": {"v1": "ints (body, query, path, header)", "v2": "floats with exclusive bounds, UInt, strings with length/enum/pattern", "v3": "arrays, maps, nested user types, query array",
                            "v4": "two body types sharing member names, required query parameters (Int, ArrayOf(String)) with a default", "v6": "payload extending two bases with overlapping required lists; Reference restating required attributes",
                            "w1": "responses: result type under run-time and design-fixed views, collection", "w2": "responses: nested view override, collection declared with a DSL",
